@@ -2,7 +2,7 @@ SPECIFICATION Spec
 CONSTANTS
     Ideal = FALSE
     Mode = "seq"
-    MaxLen = 3
+    MaxLen = 2
     Mutation = "none"
 INVARIANTS Emit
 CHECK_DEADLOCK FALSE
